@@ -104,7 +104,7 @@ func (s *stallFs) OpenFile(name string, flag int, perm os.FileMode) (afero.File,
 	return &stallFile{File: f, stall: s.stall}, nil
 }
 
-// aggr <fmt> <Q> <G> <per> <mode> <delay-ms> <bufsize> <salt> [<stall-ms>]
+// aggr <fmt> <Q> <G> <per> <mode> <delay-ms> <bufsize> <salt> [<stall-ms> [<old>]]
 //
 //	fmt   phout | phoutid | json | tab
 //	mode  pre   all reports are made (by one goroutine, round robin over the G reporters) BEFORE Run starts
@@ -112,8 +112,12 @@ func (s *stallFs) OpenFile(name string, flag int, perm os.FileMode) (afero.File,
 //	            so the global order of the completed Reports is known
 //	      free  Run is running; G goroutines report with no extra synchronisation
 //	delay  ms between the last completed Report and the cancel; -1 (pre only): cancel before Run starts
-//	stall  (optional) the destination's first Write blocks for that long: the queue runs full while
-//	       the output stalls; cases with a stall are run concurrently with the other cases (main.go)
+//	stall  (optional, 0 = none) the destination's first Write blocks for that long: the queue runs full
+//	       while the output stalls; cases with a stall are run concurrently with the other cases (main.go)
+//	old    (optional) the destination exists before the aggregator is built (a re-run with the same
+//	       config): e = empty, s = 3 old lines, l = more old lines than this run can write,
+//	       m = like l but ending in the middle of a line, g = 10 kB of bytes that are not lines.
+//	       After Run the destination must consist of exactly this run's lines.
 //
 // observation:  <err> <order> <payload>
 //
@@ -139,10 +143,16 @@ func runAggr(f []string) (obs string) {
 
 	var fs afero.Fs = afero.NewMemMapFs()
 	hangAfter := 5 * time.Second
+	if len(f) > 10 {
+		if err := afero.WriteFile(fs, "out", oldContent(f[10], format, g*per), 0o644); err != nil {
+			return "other - setup"
+		}
+	}
 	if len(f) > 9 {
-		ms, _ := strconv.Atoi(f[9])
-		fs = &stallFs{Fs: fs, stall: time.Duration(ms) * time.Millisecond}
-		hangAfter += time.Duration(ms) * time.Millisecond
+		if ms, _ := strconv.Atoi(f[9]); ms > 0 {
+			fs = &stallFs{Fs: fs, stall: time.Duration(ms) * time.Millisecond}
+			hangAfter += time.Duration(ms) * time.Millisecond
+		}
 	}
 	var run func(ctx context.Context) error
 	var report reporter
@@ -321,6 +331,42 @@ func jsonPayload(data []byte) string {
 	return fmt.Sprintf("ids:%s;bad=%d", strings.Join(ids, ","), bad)
 }
 
+// oldContent: what an earlier run left at the destination. Old lines are well-formed lines of
+// the same format for samples of reporters 900.. (never used by a case), so that anything
+// surviving from them is recognisable as not belonging to this run.
+func oldContent(kind, format string, reports int) []byte {
+	var b []byte
+	line := func(i int) {
+		id := uint64(900+i%50)<<idShift | uint64(i)
+		if format == "json" {
+			j, _ := json.Marshal(mkJSONSample(id))
+			b = append(b, j...)
+		} else {
+			b = append(b, netsample.VerifAppendPhout(time.Unix(0, sampleNs(id)), sampleTag(id), id, sampleFields(id), format != "phout")...)
+		}
+		b = append(b, '\n')
+	}
+	switch kind {
+	case "e":
+	case "s":
+		for i := 0; i < 3; i++ {
+			line(i)
+		}
+	case "l", "m":
+		for i := 0; i < 2*reports+50; i++ {
+			line(i)
+		}
+		if kind == "m" {
+			b = b[:len(b)-17]
+		}
+	case "g":
+		for i := 0; i < 10240; i++ {
+			b = append(b, byte(33+i%90))
+		}
+	}
+	return b
+}
+
 func genAggr(r *vh.Rand, tier string) []string {
 	n := 60
 	if tier == "thorough" {
@@ -357,7 +403,11 @@ func genAggr(r *vh.Rand, tier string) []string {
 			delay = r.PickInt([]int{-1, 0, 2, 5, 10})
 		}
 		bufsize := r.PickInt([]int{0, 1, 4096, 4097, 5000, 65536})
-		out = append(out, fmt.Sprintf("aggr %s %d %d %d %s %d %d %d", format, q, g, per, mode, delay, bufsize, r.U64()%1000000))
+		c := fmt.Sprintf("aggr %s %d %d %d %s %d %d %d", format, q, g, per, mode, delay, bufsize, r.U64()%1000000)
+		if r.Chance(1, 3) { // the destination already exists
+			c += " 0 " + r.Pick([]string{"e", "s", "l", "l", "m", "m", "g"})
+		}
+		out = append(out, c)
 	}
 	// a stalling destination: the queue is full for seconds; a blocking Report must keep waiting,
 	// a dropping one must count. (Run concurrently, so the wall time is that of the longest stall.)
